@@ -442,3 +442,154 @@ def c07_cases(rng, tier):
         cases.append(case(ops_, stack=rand_stack(rng), cost=(c, table), limit=lim, sols=RICH_SOLS))
     oracles = [as_oracle(c, "o_gas") for c in cases]
     return cases, oracles
+
+
+def c09_cases(rng, tier):
+    rows()
+    cases = []
+    dists = [I64_MIN, I64_MIN + 1, -(1 << 32), -9, -8, -7, -6, -5, -4, -3, -2, -1, 0, 1, 2, 3, 4, 5, 6, 7, 8, 9, 1 << 32, I64_MAX - 1, I64_MAX]
+    pad = [P(10), op("POP")] * 3          # 6 ops before, so backward jumps have somewhere to land
+    tail = [P(20), op("POP")] * 3 + [P(99)]
+    for d in dists:
+        for c in (0, 1, 2, -1, I64_MIN):
+            prog = pad + [P(d), P(c), op("JMPIF")] + tail
+            cases.append(case(prog, limit=500, mode="ops"))
+    # a jump at pc 0 and at the last pc
+    for d in (-1, 0, 1, 2, 3):
+        cases.append(case([op("JMPIF"), P(5), P(6)], stack=[d, 1]))
+        cases.append(case([P(5), op("JMPIF")], stack=[d, 1]))
+    # halt / halt-if / panic-if with every condition
+    for c in (0, 1, 2, -1):
+        cases.append(case([P(c), op("HLTIF"), P(7)]))
+        cases.append(case([P(c), op("PNCIF"), P(7)]))
+    cases.append(case([P(1), op("HLT"), P(2)]))
+    cases.append(case([op("HLT")]))
+    cases.append(case([]))
+    cases.append(case([P(1)], pc=5))
+    # repeat: counts x directions, counter observed, body leaves a trace on the stack
+    for n in (I64_MIN, -5, -1, 0, 1, 2, 3, 7, 50):
+        for up in (0, 1, 2, -1):
+            prog = [P(n), P(up), op("REP"), op("REPC"), op("REPE"), P(-7)]
+            cases.append(case(prog, limit=100000))
+    # nested loops: inner count x outer count x directions; resume addresses matter
+    for no in (0, 1, 2, 3):
+        for ni in (-1, 0, 1, 2, 3):
+            for uo in (0, 1):
+                for ui in (0, 1):
+                    prog = [P(no), P(uo), op("REP"), op("REPC"), P(ni), P(ui), op("REP"), op("REPC"), op("REPE"), P(-1), op("REPE"), P(-2)]
+                    cases.append(case(prog, limit=100000))
+    # loops whose body jumps / halts / drops out
+    cases.append(case([P(3), P(1), op("REP"), op("REPC"), P(1), op("EQ"), op("HLTIF"), op("REPE")]))
+    cases.append(case([P(3), P(1), op("REP"), P(2), P(1), op("JMPIF"), P(77), op("REPE"), P(5)]))
+    cases.append(case([op("REPE")]))
+    cases.append(case([op("REPC")]))
+    cases.append(case([P(2), P(1), op("REP"), op("REPE"), op("REPE")]))
+    cases.append(case([P(2), P(1), op("REP"), op("REPE"), op("REPC")]))
+    cases.append(case([P(0), P(0), op("REP"), op("REPE"), op("REPC")]))
+    cases.append(case([P(0), P(0), op("REP"), op("REPE"), op("REPE")]))
+    cases.append(case([P(2), P(1), op("REP"), P(0), P(0), op("REP"), op("REPE"), op("REPC"), op("POP"), op("REPE"), P(9)]))
+    # nesting up to the repeat-stack limit (+1)
+    deep = []
+    for _ in range(STACK_LIMIT + 1):
+        deep += [P(1), P(1), op("REP")]
+    cases.append(case(deep, limit=U64_MAX))
+    cases.append(case(deep[:-3] + [op("REPE")] * STACK_LIMIT + [P(5)], limit=U64_MAX))
+    # evaluation results
+    for st in ([], [0], [1], [2], [-1], [5, 1], [5, 0], [1, 7]):
+        cases.append(case([], stack=st, mode="eval"))
+        cases.append(case([P(3), op("POP")], stack=st, mode="eval"))
+    cases.append(case([op("POP")], stack=[], mode="eval"))
+    cases.append(case([P(1), op("HLT"), P(0)], mode="eval"))
+    n = 300 if tier == "quick" else 20000
+    for _ in range(n):
+        # random structured control flow: forward jumps and bounded loops only (terminating by construction)
+        body = random_program(rng, rng.randrange(0, 6), alphabet=["PUSH", "POP", "DUP", "ADD", "REPC", "SWAP", "NOT"])
+        k = rng.choice([-1, 0, 1, 2, 3, 5])
+        prog = [P(k), P(rng.choice([0, 1])), op("REP")] + body + [op("REPE")]
+        if rng.random() < 0.5:
+            prog = [P(rng.randrange(1, 4)), P(rng.choice([0, 1, 1, 2])), op("JMPIF")] + prog
+        if rng.random() < 0.3:
+            prog = prog + [P(rng.choice([0, 1])), op("HLTIF"), P(4)]
+        cases.append(case(prog, stack=rand_stack(rng, rng.choice([0, 2, 4])), limit=5000,
+                          mode=rng.choice(["ops", "ops", "eval", "bytes"])))
+    return cases, []
+
+
+def c10_cases(rng, tier):
+    rows()
+    cases = []
+    ents = std_entries()
+    bodies = {
+        "index_mem": [op("DUP"), op("ALOC"), op("POP"), op("COME")],                      # child i allocates i words
+        "index_jump": [op("DUP"), P(2), op("LT"), P(3), op("SWAP"), op("JMPIF"), P(1), op("ALOC"), op("POP"), op("COME"), P(2), op("ALOC"), op("COME")],
+        "halt_even": [op("DUP"), P(2), op("MOD"), P(0), op("EQ"), op("HLTIF"), P(1), op("ALOC"), op("POP"), op("COME")],
+        "err_in_2": [op("DUP"), P(2), op("EQ"), op("PNCIF"), op("COME")],
+        "parent_read": [P(0), op("LODP"), op("SWAP"), P(1), op("ALOC"), op("STO"), op("COME")],
+        "parent_range": [P(0), P(2), op("LODPR"), P(2), op("ALOC"), op("POP"), P(2), P(0), op("STOR"), op("COME")],
+        "nested": [P(2), op("COM"), op("COME"), op("COME")],
+        "no_end": [P(1), op("ALOC"), op("POP")],
+        "store_index": [P(1), op("ALOC"), op("STO"), op("COME")],
+        "big_mem": [P(3000), op("ALOC"), op("POP"), op("COME")],
+        "repeat_in_child": [P(2), P(1), op("REP"), op("REPC"), op("POP"), op("REPE"), op("COME")],
+        "state_read": [P(2), op("ALOC"), op("POP"), P(0), P(1), P(1), P(0), op("KRNG"), op("COME")],
+    }
+    for name, body in bodies.items():
+        for b in (-1, 0, 1, 2, 3, 4, 7):
+            for after in ([], [P(5), op("POP")]):
+                prog = [P(b), op("COM")] + body + after
+                cases.append(case(prog, stack=[11, 12], mem=[70, 71], sols=RICH_SOLS, entries=ents, limit=200000))
+    # compute inside a repeat loop: children inherit the repeat state
+    cases.append(case([P(2), P(1), op("REP"), P(2), op("COM"), op("REPC"), P(1), op("ALOC"), op("STO"), op("COME"), op("REPE")],
+                      sols=RICH_SOLS, limit=100000))
+    # larger breadths
+    for b in (50, 1000, 4097):
+        cases.append(case([P(b), op("COM"), P(1), op("ALOC"), op("STO"), op("COME")], sols=RICH_SOLS, limit=U64_MAX, maxb=5000))
+        cases.append(case([P(b), op("COM"), P(3), op("ALOC"), op("POP"), op("COME")], sols=RICH_SOLS, limit=U64_MAX, maxb=5000))
+    # combined memory exactly at / above the limit
+    for per in (1023, 1024, 1025):
+        cases.append(case([P(10), op("COM"), P(per), op("ALOC"), op("POP"), op("COME")], sols=RICH_SOLS))
+    cases.append(case([P(2), op("COM"), P(5120), op("ALOC"), op("POP"), op("COME")], sols=RICH_SOLS))
+    cases.append(case([P(2), op("COM"), P(5120), op("ALOC"), op("POP"), op("COME")], mem=[1], sols=RICH_SOLS))
+    # parent stack full / nearly full
+    cases.append(case([op("COM"), op("COME")], stack=[1] * (STACK_LIMIT - 1) + [2], sols=RICH_SOLS))
+    cases.append(case([op("COM"), op("COME")], stack=[1] * STACK_LIMIT, sols=RICH_SOLS))
+    cases.append(case([op("COM"), op("COME")], stack=[], sols=RICH_SOLS))
+    n = 200 if tier == "quick" else 10000
+    for _ in range(n):
+        body = random_program(rng, rng.randrange(1, 8), alphabet=["PUSH", "DUP", "ADD", "ALOC", "STO", "LODP", "POP", "SWAP", "HLTIF", "NOT"])
+        prog = random_program(rng, rng.randrange(0, 3), alphabet=["PUSH", "ALOC"]) + [P(rng.choice([1, 2, 3, 5])), op("COM")] + body + [op("COME")] + \
+            random_program(rng, rng.randrange(0, 3), alphabet=["PUSH", "POP", "ADD"])
+        cases.append(case(prog, stack=rand_stack(rng, rng.choice([0, 2])), mem=rand_stack(rng, rng.choice([0, 3])), sols=RICH_SOLS, limit=100000))
+    return cases, []
+
+
+def c11_cases(rng, tier):
+    rows()
+    cases, oracles = [], []
+    ents = std_entries()
+    ext = list(struct_words(ADDR_C))
+    keys = [[], [0], [1], [1, 2], [I64_MAX], [9], [8], [7], [5, 5, 5]]
+    for s_ in ("KRNG", "PKRNG", "KREX", "PKREX"):
+        for key in keys:
+            for n in (0, 1, 2, 3, -1, I64_MAX):
+                for addr in (0, 1, 3, -1, 50, I64_MAX):
+                    for memsz in (0, 4, 12, 40):
+                        if rng.random() < (0.25 if tier == "quick" else 1.0) or (addr in (0, 1) and memsz in (12, 40)):
+                            st = [33] + (ext if s_.endswith("EX") else []) + key + [len(key), n, addr]
+                            c = case([op(s_)], stack=st, mem=[-5] * memsz, sols=RICH_SOLS, entries=ents, index=0)
+                            cases.append(c)
+                            oracles.append(as_oracle(c, "o_state"))
+    # operand underflow / malformed key length
+    for s_ in ("KRNG", "KREX"):
+        for st in ([], [0], [1, 0], [5, 1, 0], [-1, 1, 0], [1, 2, 3, 9, 1, 0], [1, 2, 1, 1, 0]):
+            cases.append(case([op(s_)], stack=st, mem=[0] * 8, sols=RICH_SOLS, entries=ents))
+    # the other solution's contract (index 1)
+    for s_ in ("KRNG", "PKRNG"):
+        c = case([op(s_)], stack=[1, 1, 2, 0], mem=[0] * 12, sols=RICH_SOLS, entries=ents, index=1)
+        cases.append(c)
+        oracles.append(as_oracle(c, "o_state"))
+    return cases, oracles
+
+
+def struct_words(b32):
+    return [int.from_bytes(b32[i:i + 8], "big", signed=True) for i in range(0, 32, 8)]
